@@ -47,11 +47,11 @@ KERNELS = [
                lambda a, o: And(o.is_some, (lambda T, d: Implies(And(in_range(T + d, TS_MIN_NS, TS_MAX_NS), civil_in_range(T + d, a[2])),
                                                               And(o.some.is_some, o.some.some[0][0].i * NS + o.some.some[0][1].i == T + d, o.some.some[1].i == a[2])))(
                    a[0] * NS + a[1], If(a[3], -1, 1) * (7 * a[4] + a[5]) * DAY_NS)))],
-      bounds={**B, 4: (0, LIM["weeks"]), 5: (0, LIM["days"])}, split=(0, 128), timeout=900, tier="thorough"),
+      bounds={**B, 4: (0, LIM["weeks"]), 5: (0, LIM["days"])}, split=(0, 128), timeout=900, tier="deep"),
     K("c20::k_zoned_fixed_start_of_day", pre=lambda a: And(c02.valid_ts(a[0], a[1]), c02.off_ok(a[2])),
       claims=[("start_of_day(fixed zone) == the instant minus the civil time of day (civil midnight), when representable",
                lambda a, o: And(o.is_some, Implies(o.some.is_some, And(
                    o.some.some[0][0].i * NS + o.some.some[0][1].i == a[0] * NS + a[1] - nanos_of_day(*o.some.some[1].ints()),
                    o.some.some[2].i == a[2]))))],
-      bounds=B, split=(0, 128), timeout=900, tier="thorough"),
+      bounds=B, split=(0, 128), timeout=900, tier="deep"),
 ]
